@@ -32,6 +32,12 @@ def load_findings(prop: str) -> dict:
     return out
 
 
+def _detail(rec):
+    """The detail of a violation record as a dict (some monitors attach a plain sentence)."""
+    d = rec.get("detail")
+    return d if isinstance(d, dict) else ({"note": d} if d else {})
+
+
 class Verdict:
     def __init__(self, prop: str, level: str = "exploration"):
         from . import classify
@@ -67,6 +73,8 @@ class Verdict:
         """Register an observed violation; returns the finding key when it is a listed one."""
         rec = dict(rec)
         rec.setdefault("property", self.prop)
+        if not isinstance(rec.get("detail"), dict):  # some monitors attach a plain sentence: everything downstream reads a dict
+            rec["detail"] = {"note": str(rec["detail"])} if rec.get("detail") else {}
         key = self.classify(rec)
         if key is not None:
             self.hits[key] += 1
@@ -114,7 +122,7 @@ class Verdict:
         replay_paths = []
         shown_kinds = {}
         for rec in self.unlisted:
-            kind = (rec.get("kind"), (rec.get("detail") or {}).get("attributed_rule") or rec.get("rule"))
+            kind = (rec.get("kind"), _detail(rec).get("attributed_rule") or rec.get("rule"))
             shown_kinds[kind] = shown_kinds.get(kind, 0) + 1
             if shown_kinds[kind] > 2 or len(replay_paths) >= 150:
                 continue
